@@ -1,13 +1,13 @@
 #!/bin/bash
 # usage: dev_all.sh [patch]  -- runs all 20 checks with bin/scioncheck-dev against the scratch worktree /var/tmp/devrepo
 cd /verif && . ./env.sh
-D=/var/tmp/devrepo
+D=${DEVREPO:-/var/tmp/devrepo}
 [ -d $D ] || git -C /repo worktree add --detach $D HEAD >/dev/null 2>&1
 git -C $D checkout -q -- . ; git -C $D clean -fdq
 [ -n "$1" ] && { git -C $D apply $1 || exit 3; }
 tmp=$(mktemp -d /var/tmp/devall.XXXX)
 for p in C01 C02 C03 C04 C05 C06 C07 C08 C09 C10 C11 C12 C13 C14 C15 C16 C17 C18 C19 C20; do
-  ( SCIONCHECK_REPO=$D VERIF_EVIDENCE_DIR=$tmp ./bin/scioncheck-dev -p $p > $tmp/$p.out 2>&1; echo $? > $tmp/$p.code ) &
+  ( SCIONCHECK_REPO=$D VERIF_EVIDENCE_DIR=$tmp ${DEVBIN:-./bin/scioncheck-dev} -p $p > $tmp/$p.out 2>&1; echo $? > $tmp/$p.code ) &
 done
 wait
 for p in C01 C02 C03 C04 C05 C06 C07 C08 C09 C10 C11 C12 C13 C14 C15 C16 C17 C18 C19 C20; do
